@@ -215,7 +215,14 @@ func (p *Program) Func(pkg, name string) *ssa.Function {
 			return nil
 		}
 	}
-	return p.SSA.MethodValue(sel)
+	if fn := p.SSA.MethodValue(sel); fn != nil {
+		return fn
+	}
+	// methods of generic types: the generic body
+	if fo, ok := sel.Obj().(*types.Func); ok {
+		return p.SSA.FuncValue(fo)
+	}
+	return nil
 }
 
 // Decl returns the syntax of a source function.
